@@ -1094,6 +1094,14 @@ func main() {
 		}
 		files["LockFacts.lean"] = lf
 	}
+	if *withSites {
+		of, err := orderFactsLean(*repo)
+		if err != nil {
+			fmt.Fprintln(os.Stderr, "extract:", err)
+			os.Exit(1)
+		}
+		files["OrderFacts.lean"] = of
+	}
 	if !*withSites {
 	} else if pf, err := panicFactsLean(*repo); err != nil {
 		fmt.Fprintln(os.Stderr, "extract:", err)
